@@ -86,6 +86,30 @@ impl ConnectionId {
     }
 }
 
+#[cfg(litep2p_verif)]
+impl ConnectionId {
+    /// Raw value (verification seam).
+    pub fn verif_raw(&self) -> usize {
+        self.0
+    }
+}
+
+#[cfg(litep2p_verif)]
+impl SubstreamId {
+    /// Raw value (verification seam).
+    pub fn verif_raw(&self) -> usize {
+        self.0
+    }
+}
+
+#[cfg(litep2p_verif)]
+impl RequestId {
+    /// Raw value (verification seam).
+    pub fn verif_raw(&self) -> usize {
+        self.0
+    }
+}
+
 impl Default for ConnectionId {
     fn default() -> Self {
         Self::new()
